@@ -401,7 +401,8 @@ int main(int argc, char** argv)
     }
 
     for (GlobalVariable* G : C.globals)
-        if (G->isThreadLocal()) die("thread_local global not supported: " + G->getName().str());
+        if (G->isThreadLocal() && G->hasInitializer() && !G->getInitializer()->isNullValue() && !isa<UndefValue>(G->getInitializer()))
+            die("thread_local global with non-zero initialiser not supported: " + G->getName().str());
 
     // reserve names of defined functions first (stable)
     for (Function* F : C.funcs) C.gname(F);
@@ -435,7 +436,7 @@ int main(int argc, char** argv)
             glob << "static u64 " << n << "__storage[8]; /* external, unsized */\n#define " << n << " (*(" << C.ty(VT) << "*)" << n << "__storage)\n";
             continue;
         }
-        glob << C.ty(VT) << " " << n << ";\n";
+        glob << C.ty(VT) << " " << n << (G->isThreadLocal() ? "[VERIF_NSLOT]" : "") << ";\n";
     }
     for (size_t i = 0; i < C.globals.size(); ++i)
     {
